@@ -74,7 +74,10 @@ RECURSIVE MayVary(_)
 MayVarySeq(ns) == \E i \in 1..Len(ns) : MayVary(ns[i])
 MayVary(n) ==
     CASE n.k = "Variable" -> n.nm \in {"random", "shuffle", "now", "millis", "keys", "each", "spread", "sift", "merge"}
-      [] n.k \in {"Wildcard", "Descendent", "Object", "Group", "Transform"} -> TRUE
+      [] n.k \in {"Wildcard", "Descendent"} -> TRUE
+      \* an object constructor may report any of the errors of its pairs (map order): values never vary, errors may
+      [] n.k \in {"Object", "Group"} -> (\E i \in 1..Len(n.pairs) : MayVary(n.pairs[i][1]) \/ MayVary(n.pairs[i][2])) \/ (n.k = "Group" /\ MayVary(n.e))
+      [] n.k = "Transform" -> MayVary(n.pat) \/ MayVary(n.upd) \/ MayVary(n.del)
       [] n.k = "Path" -> MayVarySeq(n.steps)
       [] n.k \in {"Negation"} -> MayVary(n.e)
       [] n.k \in {"NumOp", "CmpOp", "BoolOp", "Concat", "Range", "Apply"} -> MayVary(n.l) \/ MayVary(n.r)
@@ -123,7 +126,7 @@ TEval ==
            f3 == IF ~Ev.ast_same \/ (Has(Ev, "ast_after") /\ Ev.ast_after # expr[e].ast) THEN ";ast-modified" ELSE ""
            f4 == IF ~Ev.str_same THEN ";string-changed" ELSE ""
            prev == Earlier(e, heap[Ev.d], expr[e].reg)
-           f5 == IF prev # {} /\ ~MayVary(expr[e].ast) /\ (\E i \in prev : hist[i].out # Ev.out) THEN ";not-repeatable" ELSE ""
+           f5 == IF prev # {} /\ ~MayVary(expr[e].ast) /\ (\E i \in prev : hist[i].out # Ev.out /\ ~(hist[i].out.o = "err" /\ Ev.out.o = "err")) THEN ";not-repeatable" ELSE ""
            f6 == IF v = "no" /\ Mentions(expr[e].ast, RegNamesNow) THEN ";registry-visibility" ELSE ""
            all == v \o f0 \o f1 \o f3 \o f4 \o f5 \o f6
        IN  /\ (IF all = "ok" THEN TRUE ELSE Report(Ev.id, all))
